@@ -116,7 +116,7 @@ pub struct ExecOpts {
 
 impl Default for ExecOpts {
     fn default() -> Self {
-        ExecOpts { trace: false, step_budget: 40_000, baseline_step_cap: 8_000 }
+        ExecOpts { trace: false, step_budget: 60_000, baseline_step_cap: 8_000 }
     }
 }
 
@@ -173,6 +173,7 @@ struct Sim {
     in_op: bool,
     op_start_step: u64,
     since_flag: u64,
+    steps_at_flag: u64,
     timers: Vec<TimerInfo>,
     faults: BTreeMap<String, u64>,
     thunks_in_op: Vec<u64>,
@@ -201,6 +202,7 @@ impl Sim {
             in_op: false,
             op_start_step: 0,
             since_flag: 0,
+            steps_at_flag: 0,
             timers: vec![],
             faults: BTreeMap::new(),
             thunks_in_op: vec![],
@@ -365,12 +367,15 @@ fn probe(site: u32, arg: u64) {
                     s.event(task, "solver_stall");
                 }
                 if flag {
+                    if s.since_flag == 0 {
+                        // goal attempts of this operation when the flag was first seen set
+                        s.steps_at_flag = s.steps - s.op_start_step;
+                    }
                     s.since_flag += 1;
                 } else {
                     s.since_flag = 0;
                 }
-                let in_op_steps = s.steps - s.op_start_step;
-                let bound = 4 * in_op_steps + 1000;
+                let bound = 20 * s.steps_at_flag + 2000;
                 if s.in_op && flag && s.since_flag > bound {
                     return Act::NoHalt(s.since_flag, bound);
                 }
